@@ -77,3 +77,10 @@ META["C09"] = {
     "note": "As C08. Known finding shared with C08 (control signals through try).",
     "technique": "symbolic execution of go/ssa (bounded exhaustive exploration), differential against a reference interpreter, native replay",
 }
+
+META["C20"] = {
+    "text": "Relational step lemma: each of 51 operation templates is executed twice by the real interpreter in fresh, equal environments - once with the operand as a literal, once with the same value (same symbolic payload) delivered through a provenance chain of real AST over real containers (variable, []interface{} element, map entry, struct field, script call, Go call typed interface{}, parentheses, ?:, ??) - and error-or-success, result value and dynamic type must coincide for every value class; payload equality is decided by the solver.",
+    "design_ref": "DESIGN.md §5 C20",
+    "note": "Templates, classes and hops are enumerated by forking; payloads are symbolic. Trusted: go/ssa, symgo semantics and reflect model (Kind Interface values, addressability), z3.",
+    "technique": "symbolic execution of go/ssa + SMT (z3), relational (two-run) step lemma, native replay",
+}
